@@ -160,4 +160,5 @@ class C14(Prop):
         return [LabelCorr()]
 
 
+READY = True
 PROP = C14()
